@@ -49,7 +49,9 @@ pub fn tokenize_expression(input: &str) -> Result<Vec<Token>, CompilerError> {
         }
 
         if ch == '-' && chars.get(index + 1) == Some(&'>') {
-            let rest = input[index + 2..].trim_start();
+            // (`index` counts characters, not bytes: text in front may not be ASCII)
+            let rest_text: String = chars[index + 2..].iter().collect();
+            let rest = rest_text.trim_start();
             let parsed = parse_path_identifier(rest).ok_or_else(|| {
                 CompilerError::invalid_source("expected divert target after '->'".to_owned())
             })?;
@@ -179,16 +181,21 @@ pub fn tokenize_expression(input: &str) -> Result<Vec<Token>, CompilerError> {
                     }
                     index += 1;
                 }
-                let token_text = &input[start..index];
+                let token_text: String = chars[start..index].iter().collect();
                 if saw_identifier_tail {
-                    tokens.push(Token::Ident(token_text.to_owned()));
+                    tokens.push(Token::Ident(token_text));
                 } else if saw_dot {
-                    let value = input[start..index].parse::<f32>().map_err(|error| {
+                    let value = token_text.parse::<f32>().map_err(|error| {
                         CompilerError::invalid_source(format!("invalid float literal: {error}"))
                     })?;
+                    if !value.is_finite() {
+                        return Err(CompilerError::invalid_source(format!(
+                            "float literal out of range: {token_text}"
+                        )));
+                    }
                     tokens.push(Token::Float(value));
                 } else {
-                    let value = input[start..index].parse::<i32>().map_err(|error| {
+                    let value = token_text.parse::<i32>().map_err(|error| {
                         CompilerError::invalid_source(format!("invalid integer literal: {error}"))
                     })?;
                     tokens.push(Token::Int(value));
@@ -202,7 +209,8 @@ pub fn tokenize_expression(input: &str) -> Result<Vec<Token>, CompilerError> {
                 {
                     index += 1;
                 }
-                let ident = &input[start..index];
+                let ident_text: String = chars[start..index].iter().collect();
+                let ident = ident_text.as_str();
                 match ident {
                     "true" => tokens.push(Token::Bool(true)),
                     "false" => tokens.push(Token::Bool(false)),
